@@ -2,6 +2,7 @@ package main
 
 import (
 	"fmt"
+	"go/ast"
 	"strings"
 )
 
@@ -35,8 +36,171 @@ func init() {
 				b.WriteString(fn + "\n")
 				names = append(names, n)
 			}
+			// the loop body of GetShard and the shard record the constructor stores
+			extra, extraNames, err := rendezvousLoopAndCtor(c, f)
+			if err != nil {
+				return "", nil, err
+			}
+			b.WriteString(extra)
+			names = append(names, extraNames...)
 			b.WriteString("end Rendezvous\nend BB.Gen\n")
 			return b.String(), names, nil
 		},
 	})
+}
+
+func synthFunc(name string, params [][2]string, result string, body []ast.Stmt) *ast.FuncDecl {
+	fl := &ast.FieldList{}
+	for _, p := range params {
+		fl.List = append(fl.List, &ast.Field{Names: []*ast.Ident{ast.NewIdent(p[0])}, Type: ast.NewIdent(p[1])})
+	}
+	return &ast.FuncDecl{
+		Name: ast.NewIdent(name),
+		Type: &ast.FuncType{Params: fl, Results: &ast.FieldList{List: []*ast.Field{{Type: ast.NewIdent(result)}}}},
+		Body: &ast.BlockStmt{List: body},
+	}
+}
+
+// replaceSelector rewrites every occurrence of <base>.<field> into the identifier <to>.
+func replaceSelector(e ast.Expr, base, field, to string) ast.Expr {
+	switch x := e.(type) {
+	case *ast.SelectorExpr:
+		if id, ok := x.X.(*ast.Ident); ok && id.Name == base && x.Sel.Name == field {
+			return ast.NewIdent(to)
+		}
+		return &ast.SelectorExpr{X: replaceSelector(x.X, base, field, to), Sel: x.Sel}
+	case *ast.BinaryExpr:
+		return &ast.BinaryExpr{X: replaceSelector(x.X, base, field, to), Op: x.Op, Y: replaceSelector(x.Y, base, field, to)}
+	case *ast.ParenExpr:
+		return &ast.ParenExpr{X: replaceSelector(x.X, base, field, to)}
+	case *ast.UnaryExpr:
+		return &ast.UnaryExpr{Op: x.Op, X: replaceSelector(x.X, base, field, to)}
+	case *ast.CallExpr:
+		args := make([]ast.Expr, len(x.Args))
+		for i, a := range x.Args {
+			args[i] = replaceSelector(a, base, field, to)
+		}
+		return &ast.CallExpr{Fun: x.Fun, Args: args}
+	}
+	return e
+}
+
+// rendezvousLoopAndCtor translates (a) the body of the range loop of
+// rendezvousShardSelector.GetShard into `shardScore` (the value compared) and
+// `takes` (the update condition), and (b) the three fields of the
+// rendezvousShard literal that NewRendezvousShardSelector appends, as
+// functions of the loop variables (index, shard.Weight, hash). Anything the
+// expression translator does not know (another variable, a call) is an error,
+// which re-opens the obligations resting on this module.
+func rendezvousLoopAndCtor(c *ctx, f *ast.File) (string, []string, error) {
+	var b strings.Builder
+	st, err := c.structure(f, "rendezvousShard", "RShard")
+	if err != nil {
+		return "", nil, err
+	}
+	b.WriteString(st + "\n")
+
+	// ---- GetShard
+	gs := findFunc(f, "rendezvousShardSelector", "GetShard")
+	if gs == nil || len(gs.Type.Params.List) != 1 || len(gs.Type.Params.List[0].Names) != 1 {
+		return "", nil, fmt.Errorf("rendezvousShardSelector.GetShard(hash) not found")
+	}
+	hashParam := gs.Type.Params.List[0].Names[0].Name
+	var loop *ast.RangeStmt
+	for _, s := range gs.Body.List {
+		if r, ok := s.(*ast.RangeStmt); ok {
+			if loop != nil {
+				return "", nil, fmt.Errorf("GetShard: more than one loop")
+			}
+			loop = r
+		}
+	}
+	if loop == nil {
+		return "", nil, fmt.Errorf("GetShard: range loop not found")
+	}
+	val, ok := loop.Value.(*ast.Ident)
+	if !ok {
+		return "", nil, fmt.Errorf("GetShard: loop value variable expected")
+	}
+	n := len(loop.Body.List)
+	if n < 2 {
+		return "", nil, fmt.Errorf("GetShard: unexpected loop body")
+	}
+	ifs, ok := loop.Body.List[n-1].(*ast.IfStmt)
+	if !ok || ifs.Init != nil || ifs.Else != nil {
+		return "", nil, fmt.Errorf("GetShard: loop body must end in a plain if")
+	}
+	cond, ok := ifs.Cond.(*ast.BinaryExpr)
+	if !ok {
+		return "", nil, fmt.Errorf("GetShard: comparison expected")
+	}
+	cur, ok1 := cond.X.(*ast.Ident)
+	best, ok2 := cond.Y.(*ast.Ident)
+	if !ok1 || !ok2 {
+		return "", nil, fmt.Errorf("GetShard: comparison of two variables expected")
+	}
+	body := append(append([]ast.Stmt{}, loop.Body.List[:n-1]...), &ast.ReturnStmt{Results: []ast.Expr{ast.NewIdent(cur.Name)}})
+	fn, err := c.function(synthFunc("shardScore", [][2]string{{val.Name, "rendezvousShard"}, {hashParam, "uint64"}}, "uint64", body), "shardScore")
+	if err != nil {
+		return "", nil, fmt.Errorf("GetShard loop body: %w", err)
+	}
+	b.WriteString(fn + "\n")
+	fn, err = c.function(synthFunc("takes", [][2]string{{cur.Name, "uint64"}, {best.Name, "uint64"}}, "bool",
+		[]ast.Stmt{&ast.ReturnStmt{Results: []ast.Expr{cond}}}), "takes")
+	if err != nil {
+		return "", nil, fmt.Errorf("GetShard update condition: %w", err)
+	}
+	b.WriteString(fn + "\n")
+
+	// ---- the record stored by the constructor
+	ctor := findFunc(f, "", "NewRendezvousShardSelector")
+	if ctor == nil {
+		return "", nil, fmt.Errorf("NewRendezvousShardSelector not found")
+	}
+	var lits []*ast.CompositeLit
+	var loops []*ast.RangeStmt
+	ast.Inspect(ctor.Body, func(nd ast.Node) bool {
+		switch x := nd.(type) {
+		case *ast.CompositeLit:
+			if id, ok := x.Type.(*ast.Ident); ok && id.Name == "rendezvousShard" {
+				lits = append(lits, x)
+			}
+		case *ast.RangeStmt:
+			loops = append(loops, x)
+		}
+		return true
+	})
+	if len(lits) != 1 || len(loops) != 1 {
+		return "", nil, fmt.Errorf("NewRendezvousShardSelector: expected one loop and one rendezvousShard literal, found %d and %d", len(loops), len(lits))
+	}
+	idx, ok1 := loops[0].Key.(*ast.Ident)
+	sh, ok2 := loops[0].Value.(*ast.Ident)
+	if !ok1 || !ok2 {
+		return "", nil, fmt.Errorf("NewRendezvousShardSelector: loop variables expected")
+	}
+	fieldType := map[string]string{"weight": "uint32", "index": "int", "hash": "uint64"}
+	seen := map[string]bool{}
+	for _, el := range lits[0].Elts {
+		kv, ok := el.(*ast.KeyValueExpr)
+		if !ok {
+			return "", nil, fmt.Errorf("rendezvousShard literal: keyed fields expected")
+		}
+		k, ok := kv.Key.(*ast.Ident)
+		if !ok || fieldType[k.Name] == "" {
+			return "", nil, fmt.Errorf("rendezvousShard literal: unknown field")
+		}
+		seen[k.Name] = true
+		e := replaceSelector(kv.Value, sh.Name, "Weight", "shardWeight")
+		name := "ctor" + strings.ToUpper(k.Name[:1]) + k.Name[1:]
+		fn, err := c.function(synthFunc(name, [][2]string{{idx.Name, "int"}, {"shardWeight", "uint32"}, {"hash", "uint64"}}, fieldType[k.Name],
+			[]ast.Stmt{&ast.ReturnStmt{Results: []ast.Expr{e}}}), name)
+		if err != nil {
+			return "", nil, fmt.Errorf("NewRendezvousShardSelector, field %s: %w", k.Name, err)
+		}
+		b.WriteString(fn + "\n")
+	}
+	if len(seen) != 3 {
+		return "", nil, fmt.Errorf("rendezvousShard literal: not all fields set")
+	}
+	return b.String(), []string{"rendezvousShardSelector.GetShard(loop body)", "NewRendezvousShardSelector(stored record)"}, nil
 }
